@@ -318,8 +318,234 @@ fn c15_site(t: &[&str]) -> Option<String> {
     Some("ok holds".to_string())
 }
 
+/// handles (addr, lo, hi) of a real crystal state, observed behaviourally
+fn crystal_handles(st: &crate::state::AnyState) -> Vec<(usize, f64, f64)> {
+    use packing::traits::{Basis, State};
+    fn obs(b: &mut Vec<packing::StandardBasis>) -> Vec<(f64, f64)> {
+        b.iter_mut()
+            .map(|h| {
+                let v = h.get_value();
+                h.set_value(f64::NEG_INFINITY);
+                let lo = h.get_value();
+                h.set_value(f64::INFINITY);
+                let hi = h.get_value();
+                h.set_value(v);
+                (lo, hi)
+            })
+            .collect()
+    }
+    let (bounds, nparams) = match st {
+        crate::state::AnyState::HardLine(s) => (obs(&mut s.generate_basis()), crate::state::params_of(s).map(|p| p.len()).unwrap_or(0)),
+        crate::state::AnyState::HardMol(s) => (obs(&mut s.generate_basis()), crate::state::params_of(s).map(|p| p.len()).unwrap_or(0)),
+        crate::state::AnyState::LJ(s) => (obs(&mut s.generate_basis()), crate::state::params_of(s).map(|p| p.len()).unwrap_or(0)),
+    };
+    let nsite = nparams.saturating_sub(3);
+    let ncell = bounds.len().saturating_sub(nsite);
+    bounds
+        .iter()
+        .enumerate()
+        .map(|(i, (lo, hi))| (if i < ncell { i } else { 3 + (i - ncell) }, *lo, *hi))
+        .collect()
+}
+
+/// run the real optimiser (trace kept) and apply the history monitors; only violations of
+/// property `pid` are reported. args: <pid> <cfg> scripted|crystal <state>
+fn opt_monitor(t: &[&str]) -> Option<String> {
+    let pid = *t.get(0)?;
+    let mut k = crate::exec::Toks::new(&t[1..]);
+    let cfg = crate::opt::CfgReq::parse(&mut k)?;
+    let (reply, log, fin, handles, pure): (String, _, Option<Vec<f64>>, Vec<(usize, f64, f64)>, bool) = match k.s()? {
+        "scripted" => {
+            let st = crate::opt::parse_scripted(&mut k, true)?;
+            let handles = st.handles.clone();
+            let pure = match st.script { crate::opt::Script::Bowl(..) => true, _ => false };
+            let valid0 = true;
+            let _ = valid0;
+            let (r, l, f) = crate::opt::run_scripted(&cfg, st);
+            (r, l, f, handles, pure)
+        }
+        "crystal" => {
+            let st = match crate::state::parse_state(&mut k)? {
+                Ok(s) => s,
+                Err(e) => return Some(format!("ok holds invalid-request {}", e)),
+            };
+            let handles = crystal_handles(&st);
+            if !matches!(crate::state::state_score(&st), Some(x) if x.is_finite()) {
+                return Some("ok holds invalid-input-state".to_string());
+            }
+            let (r, l, v) = crate::state::run_any(&cfg, st, true);
+            let f = v.as_ref().and_then(crate::state::params_of_value);
+            (r, l, f, handles, true)
+        }
+        _ => return None,
+    };
+    let log = log.lock().unwrap();
+    if reply.starts_with("panic") {
+        // a panic is a C20 violation unless the input was invalid (undefined initial score, or no
+        // handle at all) or the scripted score is history-dependent and invalidated the final state
+        let site = reply.split(' ').nth(1).unwrap_or("");
+        let excused = site == "invalidInitial" || site == "emptyBasis" || (site == "finalInvalid" && !pure);
+        if pid == "C20" && !excused {
+            return Some(format!("ok FAILS panic {}", site));
+        }
+        return Some("ok holds panicked-on-invalid-input".to_string());
+    }
+    let fin = fin?;
+    let v = crate::monitor::monitors(&cfg, &handles, pure, &log, &fin);
+    for x in v.iter() {
+        if x.prop == pid {
+            return Some(format!("ok FAILS {}", x.what));
+        }
+    }
+    Some(format!("ok holds calls={}", log.calls))
+}
+
+/// C20 prefix clause: the run with a convergence threshold is a prefix of the run without.
+/// args: <cfg with convergence> scripted|crystal <state>
+fn opt_prefix(t: &[&str]) -> Option<String> {
+    let mut k = crate::exec::Toks::new(t);
+    let cfg = crate::opt::CfgReq::parse(&mut k)?;
+    let mut cfg0 = cfg.clone();
+    cfg0.convergence = None;
+    let rest = &t[k.i..];
+    let run = |c: &crate::opt::CfgReq| -> Option<(String, Vec<Vec<f64>>)> {
+        let mut k = crate::exec::Toks::new(rest);
+        match k.s()? {
+            "scripted" => {
+                let st = crate::opt::parse_scripted(&mut k, true)?;
+                let (r, l, _) = crate::opt::run_scripted(c, st);
+                let v = l.lock().unwrap().vectors.clone();
+                Some((r, v))
+            }
+            "crystal" => {
+                let st = crate::state::parse_state(&mut k)?.ok()?;
+                let (r, l, _) = crate::state::run_any(c, st, true);
+                let v = l.lock().unwrap().vectors.clone();
+                Some((r, v))
+            }
+            _ => None,
+        }
+    };
+    let (r1, v1) = run(&cfg)?;
+    let (r0, v0) = run(&cfg0)?;
+    if r1.starts_with("panic") || r0.starts_with("panic") {
+        return Some("ok holds panicked-on-invalid-input".to_string());
+    }
+    // proposals = vectors 1.. (the run without convergence ends with one extra re-score)
+    let inner = cfg.inner.min(cfg.steps).max(1) as usize;
+    let full = 2 + (cfg.steps as usize / inner) * inner;
+    let n1 = if v1.len() == full { v1.len() - 1 } else { v1.len() };
+    if n1 > v0.len() {
+        return Some("ok FAILS longer-than-the-run-without-convergence".to_string());
+    }
+    for i in 0..n1 {
+        if v1[i].len() != v0[i].len() || v1[i].iter().zip(v0[i].iter()).any(|(a, b)| a.to_bits() != b.to_bits() && !(a.is_nan() && b.is_nan())) {
+            return Some(format!("ok FAILS not-a-prefix: score() call {} differs", i));
+        }
+    }
+    Some(format!("ok holds prefix-of-length {}", n1))
+}
+
+/// C08 chained stages on a real state: bounds re-derived at each stage, family preserved.
+/// args: <nstages> <cfg>.. crystal <state>
+fn opt_chain(t: &[&str]) -> Option<String> {
+    let mut k = crate::exec::Toks::new(t);
+    let n = k.usize()?;
+    let mut cfgs = vec![];
+    for _ in 0..n {
+        cfgs.push(crate::opt::CfgReq::parse(&mut k)?);
+    }
+    if k.s()? != "crystal" {
+        return None;
+    }
+    let st0 = match crate::state::parse_state(&mut k)? {
+        Ok(s) => s,
+        Err(_) => return Some("ok holds invalid-request".to_string()),
+    };
+    if !matches!(crate::state::state_score(&st0), Some(x) if x.is_finite()) {
+        return Some("ok holds invalid-input-state".to_string());
+    }
+    let p0 = match &st0 {
+        crate::state::AnyState::HardLine(s) => crate::state::params_of(s),
+        crate::state::AnyState::HardMol(s) => crate::state::params_of(s),
+        crate::state::AnyState::LJ(s) => crate::state::params_of(s),
+    }?;
+    let fam0 = match &st0 {
+        crate::state::AnyState::HardLine(s) => serde_json::to_value(s).ok()?["cell"]["family"].as_str()?.to_string(),
+        crate::state::AnyState::HardMol(s) => serde_json::to_value(s).ok()?["cell"]["family"].as_str()?.to_string(),
+        crate::state::AnyState::LJ(s) => serde_json::to_value(s).ok()?["cell"]["family"].as_str()?.to_string(),
+    };
+    let mut cur = st0;
+    let mut last_val = None;
+    for c in cfgs.iter() {
+        let (r, _l, v) = crate::state::run_any(c, cur.clone(), false);
+        if r.starts_with("panic") {
+            return Some(format!("ok FAILS stage panicked: {}", r));
+        }
+        let v = v?;
+        cur = match &cur {
+            crate::state::AnyState::HardLine(_) => crate::state::AnyState::HardLine(serde_json::from_value(v.clone()).ok()?),
+            crate::state::AnyState::HardMol(_) => crate::state::AnyState::HardMol(serde_json::from_value(v.clone()).ok()?),
+            crate::state::AnyState::LJ(_) => crate::state::AnyState::LJ(serde_json::from_value(v.clone()).ok()?),
+        };
+        last_val = Some(v);
+    }
+    let v = last_val?;
+    let p = crate::state::params_of_value(&v)?;
+    let pi = std::f64::consts::PI;
+    let fam = v["cell"]["family"].as_str()?.to_string();
+    if fam != fam0 || v["wallpaper"]["family"].as_str()? != fam0.as_str() && false {
+        return Some(format!("ok FAILS family changed {} -> {}", fam0, fam));
+    }
+    if !(p[0] >= 0.01 && p[0] <= p0[0]) {
+        return Some(format!("ok FAILS cell length {:e} outside [0.01, {:e}]", p[0], p0[0]));
+    }
+    let free_ratio = fam0 == "Monoclinic" || fam0 == "Orthorhombic";
+    if free_ratio && !(p[1] >= 0.1f64.min(p0[1]) && p[1] <= p0[1]) {
+        return Some(format!("ok FAILS side ratio {:e} outside [0.1, {:e}]", p[1], p0[1]));
+    }
+    if !free_ratio && p[1].to_bits() != p0[1].to_bits() {
+        return Some("ok FAILS side ratio changed in a family where it is fixed".to_string());
+    }
+    if fam0 == "Monoclinic" {
+        if !(p[2] >= (pi / 6.).min(p0[2]) && p[2] <= (pi / 2.).max(p0[2])) {
+            return Some(format!("ok FAILS cell angle {:e} outside [pi/6, pi/2]", p[2]));
+        }
+    } else if p[2].to_bits() != p0[2].to_bits() {
+        return Some(format!("ok FAILS cell angle changed from {:e} to {:e} in family {}", p0[2], p[2], fam0));
+    }
+    for (i, q) in p[3..].chunks(3).enumerate() {
+        let q0 = &p0[3 + 3 * i..6 + 3 * i];
+        let inr = |v: f64, lo: f64, hi: f64, v0: f64| (v >= lo && v <= hi) || v.to_bits() == v0.to_bits();
+        if !inr(q[0], -0.5, 0.5, q0[0]) || !inr(q[1], -0.5, 0.5, q0[1]) || !inr(q[2], 0., 2. * pi, q0[2]) {
+            return Some(format!("ok FAILS site {} parameters ({:e},{:e},{:e}) out of range", i, q[0], q[1], q[2]));
+        }
+    }
+    match crate::state::state_score(&cur) {
+        Some(s) if s.is_finite() => Some("ok holds".to_string()),
+        other => Some(format!("ok FAILS returned state's score is {:?}", other)),
+    }
+}
+
+/// C08: every supported group with any shape of well-defined area starts from a valid state
+fn c08_initial(t: &[&str]) -> Option<String> {
+    let mut k = crate::exec::Toks::new(t);
+    let st = match crate::state::parse_state0(&mut k)? {
+        Ok(s) => s,
+        Err(e) => return Some(format!("ok holds constructor-error {}", e)),
+    };
+    match crate::state::state_score(&st) {
+        Some(s) if s.is_finite() && (s > 0. || matches!(st, crate::state::AnyState::LJ(_))) => Some("ok holds".to_string()),
+        other => Some(format!("ok FAILS initial state's score is {:?}", other)),
+    }
+}
+
 pub fn oracle(t: &[&str]) -> Option<String> {
     match *t.get(0)? {
+        "opt_monitor" => opt_monitor(&t[1..]),
+        "opt_prefix" => opt_prefix(&t[1..]),
+        "opt_chain" => opt_chain(&t[1..]),
+        "c08_initial" => c08_initial(&t[1..]),
         "c14_lattice" => c14_lattice(&t[1..]),
         "c15_site" => c15_site(&t[1..]),
         "c16_group" => Some(c16_group(t.get(1)?)),
